@@ -231,6 +231,11 @@ fn candidates(sc: &Scenario) -> Vec<Scenario> {
         s.cfg.scope = Scope::Whole;
         out.push(s);
     }
+    if sc.cfg.anon {
+        let mut s = sc.clone();
+        s.cfg.anon = false;
+        out.push(s);
+    }
     if sc.cfg.names != Names::JobIds {
         let mut s = sc.clone();
         s.cfg.names = Names::JobIds;
